@@ -448,7 +448,7 @@ func (env *Env) elabBinary(x *EBinary) SV {
 		}
 		if m.ty != nil {
 			if mt, ok := m.ty.Underlying().(*types.Map); ok {
-				return env.boolSV(sel(sel(env.tr.getState(env.st, env.tr.mapHeap(mt, "dom")), m.t), k.t))
+				return env.boolSV(and(not(eq(m.t, "0")), sel(sel(env.tr.getState(env.st, env.tr.mapHeap(mt, "dom")), m.t), k.t)))
 			}
 		}
 		return env.fail("'in' on non-map %s", x.Y.String())
